@@ -144,6 +144,11 @@ def run(chk):
         "scenarios x quantisation {default, 1, 7, 50} x upem/metrics variants x user transforms, clip_to_viewbox off.  "
         "Non-trivial = a glyph with a clip box and >= 1 transformed (reused) layer or a non-default step."
     )
+    # the quantisation step for EVERY integer edge and EVERY step (TLC: boundary values, steps {1, 7, 20})
+    ok, line = common.run_tlapm("QuantizeProof", ("Quantize",))
+    chk.notes["quantize_proof"] = line
+    if ok is False:
+        raise MachineryError("QuantizeProof.tla no longer proves: " + line)
     for cfgname in ("ClipBox.cfg", "ClipBox_pairs.cfg"):
         res = common.run_tlc("ClipBox", cfgname, timeout=1200)
         chk.add_tlc(res, f"{cfgname} (exhaustive)")
